@@ -48,7 +48,7 @@ def kind_of(msg):
             return k
     if msg.endswith(FIELD_NAME_SUFFIX):
         return "MFieldName"
-    raise ValueError("message of unknown kind: %r" % msg)
+    return None       # a message the model has no kind for (reported as a disagreement by the caller)
 
 
 # ---------------------------------------------------------------- the property's vocabulary, in Python
@@ -112,7 +112,9 @@ def wellformed(T, t, zeal, parent=None):
 class WF:
     """random well-formed trees (for a given zeal)"""
     WORDS = ["a", "b", "foo", "x1", "*", "w?ld*", "TO", "1", "2024_01", "a.b", "a:b", "\u00e9t\u00e9",
-             "\u65e5\u672c", "\u20ac5", "\u0663"]
+             "\u65e5\u672c", "\u20ac5", "\u0663",
+             # words a numeric library reads as special values, escapes
+             "nan", "NaN", "sNaN", "inf", "Infinity", "1e999", "0x10", "a\\b", "a\\\\", "x\\*"]
     PITFALL_WORDS = ["a-b", "+x", "1/2", "2024-01-01"]
     PHRASES = ['"a"', '"a b"', '""', '"l1\nl2"', '"x - y"']
     REGEXES = ["/a/", "/a b/", "//"]
@@ -193,7 +195,9 @@ def make_defect(r, T, wf, kind, hidden=False):
     of word characters and one final newline (the shape `$` used to let through; regression)"""
     if kind == "DSpaceInWord":
         return T.Word(r.choice(["a b", "a\tb", " ", "x\n", "a\x1cb", "a\x0bb", "a\u3000b", "a\u00a0b",
-                                "\u0085", "a\u2028", "\u00e9 \u00e9"]))
+                                "\u0085", "a\u2028", "\u00e9 \u00e9",
+                                # a blank after backslashes is still a blank in the value
+                                "foo\\ bar", "foo\\\\ bar", "a\\\tb", "\\ ", "a\\\\\\ b"]))
     if kind == "DFuzzyNonWord":
         return T.Fuzzy(r.choice([lambda: wf.phrase(), lambda: T.Group(wf.word()),
                                  lambda: T.Regex("/a/"), lambda: T.Fuzzy(wf.word())])(),
@@ -203,7 +207,8 @@ def make_defect(r, T, wf, kind, hidden=False):
                                      lambda: T.AndOperation(wf.phrase(), wf.phrase())])(),
                            r.choice([None, 2]))
     if kind == "DNegFuzzy":
-        return T.Fuzzy(wf.word(), r.choice([-1, Decimal("-0.5"), Decimal("-0"), "-2", Decimal("-1E-400")]))
+        return T.Fuzzy(wf.word(), r.choice([-1, Decimal("-0.5"), Decimal("-0"), "-2", Decimal("-1E-400"), Decimal("-1E+5000"),
+                                            Decimal("-123E+4400")]))
     if kind == "DBadFieldName":
         name = r.choice(["f\n", "title\n", "_\n", "\u00e9\n"]) if hidden else \
             r.choice(["a.b", "", "x y", "a-b", "f\n\n", "\n", "a\nb", " f", "f:", "n.o.h", "a\u00a0b",
@@ -404,6 +409,7 @@ def correspond(model_ok, res):
         T.Proximity(P('"a b"'), 2), T.Proximity(W("a"), 2), T.Fuzzy(W("a"), Decimal("-0")),
         T.Fuzzy(W("a"), Decimal("-0.5")), T.Fuzzy(W("a"), -1), T.Fuzzy(P('"a"')), T.Fuzzy(T.Fuzzy(W("a b"))),
         T.Fuzzy(W("a"), Decimal("-1E-400")), T.Fuzzy(W("a"), Decimal("1E+400")),
+        T.Fuzzy(W("a"), Decimal("-1E+5000")), T.Fuzzy(W("a"), Decimal("1E+5000")),   # beyond the int->str limit
         W("a\x1cb"), W("a b"), W("a-b"), W("+"), W("a/b"), W(""), W(" -"),
         T.Range(W("a b"), W("c")), T.Range(T.Not(W("a")), T.NoneItem()),
         T.OrOperation(W("a"), T.Not(W("b"))), T.OrOperation(W("a"), T.Prohibit(W("b-c"))),
@@ -541,6 +547,10 @@ def correspond(model_ok, res):
                 n = type(o[1]).__name__
                 return "(Raised %s)" % EXN[n] if n in EXN else None
             return "(Done %s)" % conv(o[1])
+        if e[0] != "raised" and any(kind_of(m) is None for m in e[1]):
+            res.disagreements.append(dict(payload, why="error message of a kind the model does not know",
+                                          errors=repr(e[1])[:400]))
+            continue
         ge = g_out(e, lambda l: g_kinds([kind_of(m) for m in l]))
         gc = g_out(c, lambda b: lib.g_bool(b))
         if ge is None or gc is None:
